@@ -226,7 +226,10 @@ public:
 		memcpy(new_buffer + _length, other.data(), sizeof(Char) * other.size());
 		new_buffer[new_length] = 0;
 
-		return basic_string(_allocator, new_buffer, new_length);
+		basic_string result(_allocator);
+		result._buffer = new_buffer;
+		result._length = new_length;
+		return result;
 	}
 
 	// TODO: Inefficient. Does two copies (one here, one in constructor).
@@ -238,7 +241,10 @@ public:
 		new_buffer[_length] = c;
 		new_buffer[new_length] = 0;
 
-		return basic_string(_allocator, new_buffer, new_length);
+		basic_string result(_allocator);
+		result._buffer = new_buffer;
+		result._length = new_length;
+		return result;
 	}
 
 	void push_back(Char c) {
